@@ -8,7 +8,8 @@ pub uninterp spec fn cwd() -> Seq<char>;                       // absolute path 
 pub uninterp spec fn fs_is_file(path: Seq<char>) -> bool;
 pub uninterp spec fn fs_is_dir(path: Seq<char>) -> bool;
 pub uninterp spec fn fs_openable(path: Seq<char>) -> bool;      // File::open succeeds (exists and is readable)
-pub uninterp spec fn via_symlink(path: Seq<char>) -> bool;      // the resolution of a symbolic link that itself lies under the root
+pub uninterp spec fn via_symlink(path: Seq<char>) -> bool;
+pub uninterp spec fn fs_is_symlink(path: Seq<char>) -> bool;   // the path itself is a symbolic link (lstat)      // the resolution of a symbolic link that itself lies under the root
 
 pub open spec fn is_sep(c: char) -> bool { c == '/' || c == '\\' }
 
@@ -79,6 +80,8 @@ pub fn rws_metadata<P: RwsPath + ?Sized>(path: &P) -> (r: Result<std::fs::Metada
     ensures
         r.is_ok() ==> md_path(r.unwrap()) == path.pview() && md_is_dir(r.unwrap()) == fs_is_dir(path.pview())
             && md_is_file(r.unwrap()) == fs_is_file(path.pview()) && !(md_is_dir(r.unwrap()) && md_is_file(r.unwrap())),
+        // ASSUMED (quiescent file system): the length reported for a regular file is the length of its content
+        r.is_ok() && fs_is_file(path.pview()) ==> md_len(r.unwrap()) == file_content(path.pview()).len(),
         r.is_ok() <==> (fs_is_dir(path.pview()) || fs_is_file(path.pview())),
 { unimplemented!() }
 
@@ -115,7 +118,10 @@ impl FileExt {
     #[verifier::external_body]
     pub fn read_file_partially(filepath: &str, start: u64, end: u64) -> (r: Result<Vec<u8>, String>)
         requires fs_allowed(filepath@), start <= end, end - start < u64::MAX,
-        ensures r.is_ok() ==> r.unwrap()@ == file_slice(file_content(filepath@), start as int, end as int),
+        ensures
+            r.is_ok() ==> r.unwrap()@ == file_slice(file_content(filepath@), start as int, end as int),
+            // ASSUMED: reading a regular file that File::open can open does not fail
+            fs_is_file(filepath@) && fs_openable(filepath@) ==> r.is_ok(),
     { unimplemented!() }
 
     #[verifier::external_body]
@@ -148,9 +154,13 @@ impl FileExt {
         requires fs_allowed(filepath@),
     { unimplemented!() }
 
+    // ASSUMED: lstat of a path that metadata() just resolved succeeds
     #[verifier::external_body]
     pub fn is_symlink(path: &str) -> (r: Result<bool, String>)
         requires fs_allowed(path@),
+        ensures
+            r.is_ok() ==> r.unwrap() == fs_is_symlink(path@),
+            fs_is_file(path@) || fs_is_dir(path@) ==> r.is_ok(),
     { unimplemented!() }
 
     #[verifier::external_body]
